@@ -169,7 +169,11 @@ def find_witness(prop, pcfg, o, seed):
                 w = {'driver': rp['driver'], 'bin': rp.get('bin', 'replay'), 'args': rp.get('args', {}), 'history': rp.get('history', '')}
                 rr = engines.replay_witness(w)
                 w['replayed_on_real_code'] = rr
-                if rr.get('reproduced'): return w
+                if rr.get('reproduced'):
+                    m = re.search(r'FOUND hex=([0-9a-f]*)', rr.get('output', ''))
+                    if m:   # a search found a concrete input: record it so that the replay is direct
+                        w['args'] = {'mode': 'hex', 'text': m.group(1)}
+                    return w
             except Exception as e:
                 print('  (replay driver failed: %s)' % str(e)[:200])
     w = pcfg.get('witness')
